@@ -59,7 +59,7 @@ type RaceDetector struct {
 	seen    map[string]bool
 	// sync objects
 	onces map[uintptr]*simOnce
-	pools map[uintptr][]any // simulator-owned free lists of seamed sync.Pools
+	pools map[uintptr][]pooled // simulator-owned free lists of seamed sync.Pools
 	locks map[uintptr]*simLock
 	Accs  int
 }
@@ -365,14 +365,16 @@ func PoolGet(p *sync.Pool) any {
 	k.Yield(k.curCall, "pool-get")
 	r := k.Race
 	if r.pools == nil {
-		r.pools = map[uintptr][]any{}
+		r.pools = map[uintptr][]pooled{}
 	}
 	free := r.pools[uintptr(unsafe.Pointer(p))]
 	if n := len(free); n > 0 {
-		x := free[n-1]
+		e := free[n-1]
 		r.pools[uintptr(unsafe.Pointer(p))] = free[:n-1]
 		k.Stats.Probe("pool_reuse")
-		return x
+		// everything the releasing task did to the object happens before its next owner's use
+		r.acquire(k.cur, e.clock)
+		return e.x
 	}
 	if p.New != nil {
 		return p.New()
@@ -388,9 +390,9 @@ func PoolPut(p *sync.Pool, x any) {
 	}
 	r := k.Race
 	if r.pools == nil {
-		r.pools = map[uintptr][]any{}
+		r.pools = map[uintptr][]pooled{}
 	}
-	r.pools[uintptr(unsafe.Pointer(p))] = append(r.pools[uintptr(unsafe.Pointer(p))], x)
+	r.pools[uintptr(unsafe.Pointer(p))] = append(r.pools[uintptr(unsafe.Pointer(p))], pooled{x: x, clock: r.snapshot(k.cur)})
 	k.Yield(k.curCall, "pool-put")
 }
 
@@ -402,4 +404,10 @@ func Step(site string) {
 	}
 	k.Stats.Probe("step")
 	k.Yield(k.curCall, "step:"+site)
+}
+
+// pooled is an object parked in a seamed sync.Pool together with the releasing task's clock.
+type pooled struct {
+	x     any
+	clock vclock
 }
